@@ -37,6 +37,7 @@ func c06(c *Ctx) {
 	c06FixedWidth(c)
 	digestSizeTables(c, "C06")
 	injectiveStringTables(c, "C06", []string{"hybrid", "hybrid/ecies", "hybrid/hpke", "hybrid/internal/hpke", "hybrid/subtle", "hybrid/internal/ecies"})
+	c06KemBind(c)
 	c06CtxInfo(c)
 }
 
